@@ -16,6 +16,17 @@ func VerifC11EmissionSplit() {
 	znn := constants.NetworkZnnRewardPerEpoch(epoch)
 	qsr := constants.NetworkQsrRewardPerEpoch(epoch)
 	verifAssert(znn > 0 && qsr > 0, "emission is positive")
+	// the emission schedule: entry epoch/30 of the protocol table, the last entry for all later epochs
+	tick := epoch / constants.RewardTickDurationInEpochs
+	zi, qi := tick, tick
+	if zi >= uint64(len(constants.NetworkZnnRewardConfig)) {
+		zi = uint64(len(constants.NetworkZnnRewardConfig)) - 1
+	}
+	if qi >= uint64(len(constants.NetworkQsrRewardConfig)) {
+		qi = uint64(len(constants.NetworkQsrRewardConfig)) - 1
+	}
+	verifAssert(znn == constants.NetworkZnnRewardConfig[zi], "ZNN emission follows the schedule table (last entry beyond the table)")
+	verifAssert(qsr == constants.NetworkQsrRewardConfig[qi], "QSR emission follows the schedule table (last entry beyond the table)")
 	// no overflow of the int64 products inside the helpers: emission * 100 < 2^63
 	verifAssert(znn < (1<<62)/100 && qsr < (1<<62)/100, "emission * percentage cannot overflow int64")
 
